@@ -11,6 +11,7 @@ Nothing under the repository is imported or executed.
 from __future__ import annotations
 
 import ast
+from .canon import canonicalise
 import os
 import warnings
 from typing import Dict, List, Optional, Tuple, Iterable
@@ -200,7 +201,7 @@ class ModuleInfo:
         self.src = src
         with warnings.catch_warnings():
             warnings.simplefilter("ignore")
-            self.tree = ast.parse(src, filename=relpath)
+            self.tree = canonicalise(ast.parse(src, filename=relpath))
         self.functions: Dict[str, FuncInfo] = {}
         self.classes: Dict[str, ClassInfo] = {}
         self.imports: Dict[str, str] = {}  # local alias -> dotted target
@@ -659,8 +660,37 @@ def unparse(n) -> str:
         return "<?>"
 
 
+class _CanonUnparser(ast._Unparser):
+    """ast.unparse with two spellings canonicalised, so that rules comparing normalised text do not depend on them:
+    `a > b` is written `b < a` (`>=` likewise), and the keyword arguments of a call are written in alphabetical order."""
+
+    def visit_Compare(self, node):
+        if len(node.ops) == 1 and isinstance(node.ops[0], (ast.Gt, ast.GtE)):
+            node = ast.Compare(left=node.comparators[0], ops=[ast.Lt() if isinstance(node.ops[0], ast.Gt) else ast.LtE()], comparators=[node.left])
+        super().visit_Compare(node)
+
+    def visit_Call(self, node):
+        if len(node.keywords) > 1 and all(k.arg is not None for k in node.keywords):
+            node = ast.Call(func=node.func, args=node.args, keywords=sorted(node.keywords, key=lambda k: k.arg))
+        super().visit_Call(node)
+
+
+def canon_unparse(n) -> str:
+    try:
+        return _CanonUnparser().visit(n)
+    except Exception:  # pragma: no cover
+        return unparse(n)
+
+
+def canon_src(src: str) -> str:
+    """the canonical normalised text of a source fragment written by hand in a rule (expression or statement)"""
+    tree = canonicalise(ast.parse(src.strip()))
+    node = tree.body[0]
+    return norm_text(node.value if isinstance(node, ast.Expr) else node)
+
+
 def norm_text(n, limit: int = 160) -> str:
-    """Normalised text of a construct for finding keys (whitespace-insensitive, no positions)."""
-    s = unparse(n) if not isinstance(n, str) else n
+    """Normalised text of a construct for finding keys and rule comparisons (whitespace-insensitive, no positions, canonical comparison orientation and keyword order)."""
+    s = canon_unparse(n) if not isinstance(n, str) else n
     s = " ".join(s.split())
     return s[:limit]
